@@ -12,11 +12,13 @@ import itertools
 import os
 from multiprocessing import Pool
 
-from harness import common
+from harness import c07_mem, common
 from harness.common import Model
 
 PID = "C07"
-TRANSLATORS = []
+# T-bvsugar: bounds of the __setitem__/__getitem__ slice sugar (bytevec.py); T-memwire: offset/size wiring of the memory
+# instructions, State.mslice/set_mslice, calldata_slice, copy_returndata_to_memory (sevm.py); T-codeslice: Contract.slice
+TRANSLATORS = ["T-bvsugar", "T-memwire", "T-codeslice"]
 # Genuine defects found on the unchanged tree.  Until the coordinator moves an entry to
 # known_findings.json (or repairs halmos), a failing input whose sig matches is printed as
 # KNOWN-FINDING and recorded in the evidence instead of failing the run; any other
@@ -919,10 +921,71 @@ def setitem_probe(rep, exe):
                 nbad += 1
                 if nbad <= 5:
                     rep.fail("broken-tie", f"model and implementation disagree on {case}: implementation {got}, model {mgot}", case={"case": case})
+    # the read sugar bv[start:stop] on the same grid of bounds
+    gcases = [(init, start, stop) for init in ([], [1, 2, 3, 4]) for start in (None, 0, 1, 2, 4, 5) for stop in (None, 0, 1, 2, 4, 6)]
+    gmodel = Model(exe).batch([("c07_getitem", [0 if a is None else 1, a or 0, 0 if b is None else 1, b or 0, len(init)] + init)
+                               for init, a, b in gcases]) if exe is not None else None
+    for i, (init, start, stop) in enumerate(gcases):
+        case = {"tag": "getitem", "init": init, "start": start, "stop": stop}
+        bv = ByteVec(bytes(init)) if init else ByteVec()
+        try:
+            u = bv[slice(start, stop)].unwrap()
+            got = list(u) if isinstance(u, bytes) else str(u)
+        except Exception as e:  # noqa: BLE001
+            got = f"{type(e).__name__}"
+        want = fa_slice(list(init), 0 if start is None else start, len(init) if stop is None else stop)
+        rep.case(case, nontrivial=bool(init))
+        rep.count("tag", "getitem")
+        if got != want:
+            nbad += 1
+            if nbad <= 5:
+                rep.fail("failing-input", f"ByteVec({bytes(init)!r})[{start}:{stop}] = {got}, flat slice read = {want}",
+                         case={"case": case, "implementation": got, "spec": want}, sig={"observable": "getitem", "op": "getitem"})
+            continue
+        if gmodel is not None:
+            m = gmodel[i]
+            if not m or m[1:1 + m[0]] != got:
+                nbad += 1
+                if nbad <= 5:
+                    rep.fail("broken-tie", f"model and implementation disagree on {case}: implementation {got}, model {m}", case={"case": case})
     for kid, hits in known_hits.items():
         k = next(k for k in KNOWN if k["id"] == kid)
         print(f"KNOWN-FINDING: property={PID} {kid}: {k['what']}")
     rep.coverage["known_findings_in_module"] = {kid: {"hits": len(h), "example": h[0]} for kid, h in known_hits.items()}
+
+
+def mem_layer(rep, exe, r, tier):
+    """the real SEVM on programs of memory instructions and message calls vs the EVM semantics on flat arrays
+    (failing inputs) vs the extracted Model/MemOpsModel.v (memory length, chunk layout, content, returndata, MSIZE)"""
+    cases = c07_mem.gen_cases(r, 300 if tier == "quick" else 4000)
+    built = [c07_mem.build(c) for c in cases]
+    impl = [c07_mem.impl_run(c) for c in cases]
+    model = None
+    if exe is not None:
+        res = Model(exe).parallel_batch([("c07_mem", c07_mem.enc_case(c, a, cc)) for c, (a, cc) in zip(cases, built)])
+        model = [c07_mem.dec_model(x) for x in res]
+    nbad = 0
+    for i, (c, (acc, cc)) in enumerate(zip(cases, built)):
+        kinds = c07_mem.classify(c)
+        for k in kinds:
+            rep.count("mem_case_kind", k)
+        rep.count("mem_outcome", impl[i][0])
+        rep.count("tag", c["tag"])
+        rep.case(c, nontrivial=impl[i][0] == "ok" and len(c["ops"]) >= 2)
+        d = c07_mem.compare_spec(c, impl[i], c07_mem.spec_run(c, acc, cc))
+        if d is not None:
+            nbad += 1
+            if nbad <= 8:
+                rep.fail("failing-input", f"SEVM memory disagrees with the flat EVM memory after {c['ops']} (calldata {c['calldata']}): {d}",
+                         case={"mem_case": c, **d}, sig={"observable": "mem-" + d["observable"], "op": "memops"})
+            continue
+        if model is not None:
+            d = c07_mem.compare_model(c, impl[i], model[i])
+            if d is not None:
+                nbad += 1
+                if nbad <= 8:
+                    rep.fail("broken-tie", f"MemOpsModel and SEVM disagree (flat reference agrees with SEVM) after {c['ops']}: {d}", case={"mem_case": c, **d})
+    rep.coverage["mem_layer_cases"] = len(cases)
 
 
 def short(case):
@@ -985,6 +1048,7 @@ def run(rep, tier):
                 if nbad <= 10:
                     rep.fail("broken-tie", f"model and implementation disagree (flat reference agrees with implementation) at step {d['step']} of {str(c['steps'])[:400]}: {d}", case={"case": c, **d})
     setitem_probe(rep, exe)
+    mem_layer(rep, exe, r, tier)
     # alias probe: model must predict what the implementation does; deviation from value semantics recorded
     pi = len(cases)
     dspec = compare_spec(probe, impl[pi], spec_run(probe))
@@ -1004,7 +1068,7 @@ def run(rep, tier):
     rep.coverage["exhaustive"] = True
     rep.coverage["exhaustive_note"] = exh_note
     return rep.finish(
-        checker_cmd="make -C coq Props/C07.vo (coq_makefile, coqc 8.16.1); no generated files",
+        checker_cmd="make -C coq Props/C07.vo (coq_makefile, coqc 8.16.1); Gen/GenByteVecSugar.v, GenMemWire.v, GenCodeSlice.v regenerated from /repo first",
         trusted_base=common.TRUSTED_BASE_COMMON,
         assumptions=ASSUMPTIONS,
         partial=PARTIAL,
@@ -1014,6 +1078,17 @@ def run(rep, tier):
 
 def replay(rep, body):
     for f in body.get("failures", []):
+        mc = (f.get("case") or {}).get("mem_case")
+        if mc:
+            acc, cc = c07_mem.build(mc)
+            impl = c07_mem.impl_run(mc)
+            spec = c07_mem.spec_run(mc, acc, cc)
+            print("memory case:", mc)
+            print("program:", acc[c07_mem.THIS].hex())
+            print("implementation:", str(impl)[:600])
+            print("flat EVM memory:", str(spec)[:600])
+            print("spec-vs-implementation:", c07_mem.compare_spec(mc, impl, spec))
+            continue
         case = (f.get("case") or {}).get("case")
         if case:
             print("steps:", case["steps"])
